@@ -10,7 +10,11 @@ T_ARK = 'arkworks crates (ark-ff, ark-ec, ark-serialize) wherever /repo delegate
 def S_ZERO():
     """contract S, zero-operand part (cheap): included by every property whose algebra check replaces the square root by its contract"""
     from . import sqrt
-    return [('ark sqrt zero cases (contract S)', sqrt.check_sqrt_zero_cases, ('ark',)), ('min sqrt zero cases (contract S)', sqrt.check_sqrt_zero_cases, ('min',))]
+    return [('ark sqrt zero cases (contract S)', sqrt.check_sqrt_zero_cases, ('ark',)), ('min sqrt zero cases (contract S)', sqrt.check_sqrt_zero_cases, ('min',))] + SIGN()
+def SIGN():
+    """the body behind the uninterpreted sign predicate of the algebra checks (both builds)"""
+    from . import fields
+    return [('ark sign body (is_nonnegative = parity of the canonical value)', fields.check_sign, ('ark',)), ('min sign body (is_nonnegative = parity of the canonical value)', fields.check_sign, ('min',))]
 def W_PARSE():
     """contract W for the canonical 32-byte parse that decoding starts with (both builds)"""
     from . import fields
